@@ -484,3 +484,17 @@ Proof.
   - apply (c0_assert g gfh s a HI). rewrite (assertion_resets_inv s a 0 v HI), Hgf.
     apply negb_true_iff. lia.
 Qed.
+
+(* ---------- the first start as one list of four steps (NewChainService) ---------- *)
+Lemma first_start_cs_crash_recovers g gfh k torn c :
+  first_start_crash_cs g gfh k torn = Some c ->
+  torn_le (first_steps_b g ++ first_steps_f g gfh) k torn ->
+  recover g gfh c = init g gfh.
+Proof.
+  unfold first_start_crash_cs. intros Hc Ht.
+  destruct k as [|[|k]]; cbn [Nat.ltb Nat.leb] in Hc.
+  - exact (proj1 (first_start_crash_recovers g gfh false 0 torn c Hc Ht)).
+  - exact (proj1 (first_start_crash_recovers g gfh false 1 torn c Hc Ht)).
+  - replace (S (S k) - 2)%nat with k in Hc by lia.
+    exact (proj1 (first_start_crash_recovers g gfh true k torn c Hc Ht)).
+Qed.
